@@ -34,7 +34,13 @@ type cfg struct {
 }
 
 func (c cfg) dial() bool {
-	return c.origin == "ondial" || c.origin == "dial-again" || c.origin == "dial-then" || c.origin == "ondial-sendfile"
+	return c.origin == "ondial" || c.origin == "dial-again" || c.origin == "dial-then" || c.origin == "ondial-sendfile" || c.immediate()
+}
+
+// immediate: the connect of the asynchronous dial completes at once (what a unix-domain dial
+// does): the callback runs later from the engine's async queue, the socket is registered already.
+func (c cfg) immediate() bool {
+	return c.origin == "dial-immediate" || c.origin == "dial-immediate-then"
 }
 
 func (c cfg) name() string {
@@ -121,6 +127,9 @@ func body(c cfg) func() {
 		}
 		switch {
 		case c.dial():
+			if c.immediate() {
+				vsys.SetDialPlan(vsys.DialPlan{Immediate: true})
+			}
 			// the write is issued inside the dial callback (the fd is registered read+write then)
 			err := g.DialAsync("tcp", "127.0.0.1:80", func(cc *nbio.Conn, err error) {
 				if err != nil {
@@ -129,7 +138,7 @@ func body(c cfg) func() {
 				}
 				conn = cc
 				switch c.origin {
-				case "dial-then":
+				case "dial-then", "dial-immediate-then":
 				case "ondial-sendfile":
 					sendfile(c.k + 3) // the backlog consists of a file range only
 				default:
@@ -145,7 +154,11 @@ func body(c cfg) func() {
 				vsched.Fail("harness|no pending dial")
 				return
 			}
-			peer = ds[0].Accept()
+			if c.immediate() {
+				peer = ds[0].Peer()
+			} else {
+				peer = ds[0].Accept()
+			}
 			vsched.WaitIdle()
 			if conn == nil {
 				vsched.Fail("harness|dial callback did not run")
@@ -212,7 +225,7 @@ func body(c cfg) func() {
 		// flushed as well
 		second := true
 		switch c.origin {
-		case "again", "dial-again", "dial-then":
+		case "again", "dial-again", "dial-then", "dial-immediate-then":
 			vsched.GoNamed("writer", func() { write(c.k + 3) })
 		case "again-sendfile":
 			vsched.GoNamed("writer", func() { sendfile(c.k + 3) })
@@ -276,7 +289,7 @@ func build(tier string) []*vkit.Scenario {
 	for _, m := range ekit.Modes {
 		for _, unix := range []bool{false, true} {
 			for _, k := range ks {
-				for _, o := range []string{"onopen", "ondata", "after", "race", "two", "sendfile", "rw", "ondial", "again", "ondata-again", "dial-again", "dial-then", "ondial-sendfile", "onopen-sendfile", "after-sendfile", "again-sendfile"} {
+				for _, o := range []string{"onopen", "ondata", "after", "race", "two", "sendfile", "rw", "ondial", "again", "ondata-again", "dial-again", "dial-then", "ondial-sendfile", "onopen-sendfile", "after-sendfile", "again-sendfile", "dial-immediate", "dial-immediate-then"} {
 					if strings.Contains(o, "dial") && unix {
 						continue
 					}
